@@ -132,30 +132,46 @@ func runC08(c *core.Ctx) {
 			}
 			return nil
 		}
+		// SaveKeyValue and the helpers it hands its buffers to
+		scan := []*ssa.Function{fn}
 		core.Instrs(fn, func(in ssa.Instruction) {
-			switch x := in.(type) {
-			case *ssa.Call:
-				bi, ok := x.Call.Value.(*ssa.Builtin)
-				if !ok || len(x.Call.Args) == 0 {
+			cc := core.CallOf(in)
+			if cc == nil || cc.StaticCallee() == nil || len(cc.StaticCallee().Blocks) == 0 || cc.StaticCallee().Pkg != fn.Pkg {
+				return
+			}
+			for _, a := range cc.Args {
+				if p := rootParam(a); p != nil && p != fn.Params[0] {
+					scan = append(scan, cc.StaticCallee())
 					return
-				}
-				if bi.Name() != "append" && bi.Name() != "copy" {
-					return
-				}
-				k++
-				p := rootParam(x.Call.Args[0])
-				c.Check(p == nil, "C08/caller-buffers-only-read", fmt.Sprintf("TrackableDataTrie.SaveKeyValue/%s#%d", bi.Name(), k), x.Pos(),
-					"the destination is not a caller's buffer",
-					"the destination of "+bi.Name()+" is the caller's slice: it writes into the caller's backing array (its spare capacity may be the caller's value buffer), so what is stored differs from what was written")
-			case *ssa.Store:
-				if ia, ok := x.Addr.(*ssa.IndexAddr); ok {
-					if p := rootParam(ia.X); p != nil {
-						k++
-						c.Fail("C08/caller-buffers-only-read", fmt.Sprintf("TrackableDataTrie.SaveKeyValue/store#%d", k), x.Pos(), "writes an element of the caller's slice "+p.Name())
-					}
 				}
 			}
 		})
+		for _, sf := range scan {
+			core.Instrs(sf, func(in ssa.Instruction) {
+				switch x := in.(type) {
+				case *ssa.Call:
+					bi, ok := x.Call.Value.(*ssa.Builtin)
+					if !ok || len(x.Call.Args) == 0 {
+						return
+					}
+					if bi.Name() != "append" && bi.Name() != "copy" {
+						return
+					}
+					k++
+					p := rootParam(x.Call.Args[0])
+					c.Check(p == nil, "C08/caller-buffers-only-read", fmt.Sprintf("TrackableDataTrie.SaveKeyValue/%s#%d", bi.Name(), k), x.Pos(),
+						"the destination is not a caller's buffer",
+						"the destination of "+bi.Name()+" is the caller's slice: it writes into the caller's backing array (its spare capacity may be the caller's value buffer), so what is stored differs from what was written")
+				case *ssa.Store:
+					if ia, ok := x.Addr.(*ssa.IndexAddr); ok {
+						if p := rootParam(ia.X); p != nil {
+							k++
+							c.Fail("C08/caller-buffers-only-read", fmt.Sprintf("TrackableDataTrie.SaveKeyValue/store#%d", k), x.Pos(), "writes an element of the caller's slice "+p.Name())
+						}
+					}
+				}
+			})
+		}
 		c.Floor("C08/caller-buffers-only-read", 1)
 	}
 }
